@@ -1379,7 +1379,7 @@ class Authenticated(BaseClientHandler):
 
     ####################################################################
     #
-    def _no_expunges_while_waiting(self, cmd: IMAPClientCommand) -> None:
+    async def _no_expunges_while_waiting(self, cmd: IMAPClientCommand) -> None:
         """
         A FETCH, STORE or SEARCH by message sequence numbers checks for
         pending EXPUNGEs before it queues up on the mailbox. If another
@@ -1388,9 +1388,16 @@ class Authenticated(BaseClientHandler):
         can not tell it (no EXPUNGE during these commands): refuse. The same
         goes for COPY and MOVE: their pending notifications were sent before
         they queued up.
+
+        A UID command may be sent EXPUNGEs while it runs, and it has to get
+        the ones that were queued while it waited before any of its results:
+        those results number the messages as they are now.
         """
-        if not cmd.uid_command and self.pending_expunges():
-            raise No("There are pending EXPUNGEs.")
+        if self.pending_expunges():
+            if cmd.uid_command:
+                await self.send_pending_notifications()
+            else:
+                raise No("There are pending EXPUNGEs.")
 
     ##################################################################
     #
@@ -1428,7 +1435,7 @@ class Authenticated(BaseClientHandler):
                 raise No("There are pending untagged responses")
 
         async with cmd.ready_and_okay(self.mbox):
-            self._no_expunges_while_waiting(cmd)
+            await self._no_expunges_while_waiting(cmd)
             try:
                 results = await self.mbox.search(
                     cmd.search_key, cmd.uid_command, cmd.timeout_cm
@@ -1500,7 +1507,7 @@ class Authenticated(BaseClientHandler):
 
         try:
             async with cmd.ready_and_okay(self.mbox):
-                self._no_expunges_while_waiting(cmd)
+                await self._no_expunges_while_waiting(cmd)
                 msg_set = (
                     sorted(cmd.msg_set_as_set) if cmd.msg_set_as_set else []
                 )
@@ -1593,7 +1600,7 @@ class Authenticated(BaseClientHandler):
         #
         try:
             async with cmd.ready_and_okay(self.mbox):
-                self._no_expunges_while_waiting(cmd)
+                await self._no_expunges_while_waiting(cmd)
                 msg_set = (
                     sorted(cmd.msg_set_as_set) if cmd.msg_set_as_set else []
                 )
@@ -1652,7 +1659,7 @@ class Authenticated(BaseClientHandler):
         # Wait until the mailbox gives us the go-ahead to run the command.
         #
         async with cmd.ready_and_okay(self.mbox):
-            self._no_expunges_while_waiting(cmd)
+            await self._no_expunges_while_waiting(cmd)
             try:
                 dest_mbox = await self.server.get_mailbox(cmd.mailbox_name)
                 src_uids, dst_uids = await self.mbox.copy(
@@ -1722,7 +1729,7 @@ class Authenticated(BaseClientHandler):
         # of mailboxes in opposite directions.
         #
         async with cmd.ready_and_okay(self.mbox):
-            self._no_expunges_while_waiting(cmd)
+            await self._no_expunges_while_waiting(cmd)
             try:
                 dest_mbox = await self.server.get_mailbox(cmd.mailbox_name)
                 src_uids, dst_uids = await self.mbox.copy(
